@@ -26,6 +26,7 @@ OBLIGATIONS = [
     'C18.track_lt', 'C18.track_eq_iff', 'C18.route_shape', 'C18.route_head', 'C18.route_last', 'C18.mpx_in_channel', 'C18.mpx_inj',
     # createNets / insertPassthrough / insertFeedback (model Schem.Pass, stream pass-model)
     'C18.passWire_spec', 'C18.passWire_cells', 'C18.passWire_connected', 'C18.feedWire_spec', 'C18.feedWire_connected',
+    'C18.passWire_adjacent', 'C18.feedWire_adjacent', 'C18.passthroughCreation_connected', 'C18.exMC_pass_hyps',
     # non-vacuity on the real ModuloCounter
     'C18.exMC_column', 'C18.exMC_feedback_edge', 'C18.exMC_feedback_is_cycle', 'C18.exMC_pass', 'C18.exMC_passWire_ok', 'C18.ex_tracks',
 ]
